@@ -95,6 +95,29 @@ fn run(steps: &[Step]) -> Result<(), String> {
             }
         }
     }
+    // C12 "a stop request that no later start supersedes always leads, in bounded time once the transport reacts, to a single
+    // Stopped event": if the last request was a stop, a healthy transport + a broker that answers (CONNACK, flushes) must bring
+    // the client to Stopped within a few driver rounds
+    let last_request = steps.iter().rev().find(|s| matches!(s, Step::Start | Step::StopPlain | Step::StopWithDisconnect | Step::Shutdown));
+    let closed = steps.iter().any(|s| matches!(s, Step::Shutdown));      // close is terminal: later requests are moot
+    if loop_alive && !closed && matches!(last_request, Some(Step::StopPlain) | Some(Step::StopWithDisconnect)) {
+        for _ in 0..8 {
+            if c.get_current_state() == ClientImplState::Stopped { break; }
+            if let Some(next) = c.compute_optional_state_transition() { transition(&mut c, next, &mut loop_alive); continue; }
+            if c.get_current_state() == ClientImplState::Connected {
+                // the transport reacts: whatever is pending gets written and flushed, the broker answers the CONNECT
+                let mut out = Vec::with_capacity(4096);
+                let r = c.handle_service(&mut out);
+                let r2 = if !out.is_empty() { c.handle_write_completion() } else { Ok(()) };
+                let r3 = if r.is_ok() && r2.is_ok() && c.get_protocol_state() == crate::protocol::ProtocolStateType::PendingConnack { c.handle_incoming_bytes(&connack_bytes(true)) } else { Ok(()) };
+                if r.is_err() || r2.is_err() || r3.is_err() { transition(&mut c, ClientImplState::PendingReconnect, &mut loop_alive); }
+            }
+            if !loop_alive { break; }
+        }
+        if loop_alive && c.get_current_state() != ClientImplState::Stopped {
+            return Err(format!("stop requested last, but the client is still {} after 8 driver rounds against a responsive transport; events {:?}", c.get_current_state(), log.lock().unwrap().clone()));
+        }
+    }
     let evs = log.lock().unwrap().clone();
     grammar_ok(&evs)?;
     // "the loop never dies": a transition may only fail ... never (close is the only terminal)
@@ -153,4 +176,73 @@ fn client_new_initial_period_normalized() {
         let eff_max = Duration::from_millis(u64::max(b, 60_000));
         for _ in 0..10 { let w = c.advance_reconnect_period(); cases += 1; assert!(w <= bound, "jittered wait above the period"); bound = std::cmp::min(bound * 2, eff_max); } }
     println!("BOUNDED client_new_initial_period_normalized cases={} bound=7x7 base/max periods x 12 consecutive waits, + uniform jitter", cases);
+}
+
+/// C19: "the sequence restarts from the base period only after a connection has stayed established longer than the configured
+/// stability period" - every history of attempt outcomes up to the bound, against the closed form w(k) = min(base*2^k, max).
+#[derive(Copy, Clone, Debug, PartialEq)]
+enum Outcome { TransportFails, HandshakeRejectedLate, UpShort, UpLong }
+
+fn backoff_history(outcomes: &[Outcome]) -> Result<(), String> {
+    let base = Duration::from_millis(100);
+    let max = Duration::from_secs(10);
+    let stability = Duration::from_millis(500);
+    let longer = Duration::from_millis(650);
+    let mut ob = MqttClientOptions::builder();
+    ob.with_base_reconnect_period(base).with_max_reconnect_period(max).with_reconnect_stability_reset_period(stability).with_reconnect_period_jitter(ExponentialBackoffJitterType::None);
+    let (mut c, _log) = new_client(ob.build());
+    c.handle_incoming_operation(OperationOptions::Start(None));
+    c.transition_to_state(ClientImplState::Connecting).map_err(|_| "transition failed".to_string())?;
+    let mut k: u32 = 0;           // consecutive attempts since the last stable connection
+    for (i, o) in outcomes.iter().enumerate() {
+        match o {
+            Outcome::TransportFails => {}
+            Outcome::HandshakeRejectedLate | Outcome::UpShort | Outcome::UpLong => {
+                c.transition_to_state(ClientImplState::Connected).map_err(|_| "transition failed".to_string())?;
+                let mut out = Vec::with_capacity(4096);
+                c.handle_service(&mut out).map_err(|_| "service failed".to_string())?;
+                c.handle_write_completion().map_err(|_| "write completion failed".to_string())?;
+                if *o == Outcome::HandshakeRejectedLate {
+                    std::thread::sleep(longer);                      // the handshake itself drags on, then the server refuses
+                    let _ = c.handle_incoming_bytes(&connack_bytes(false));
+                } else {
+                    c.handle_incoming_bytes(&connack_bytes(true)).map_err(|_| "connack rejected".to_string())?;
+                    if *o == Outcome::UpLong { std::thread::sleep(longer); }
+                }
+            }
+        }
+        c.transition_to_state(ClientImplState::PendingReconnect).map_err(|_| "transition failed".to_string())?;
+        if *o == Outcome::UpLong { k = 0; }
+        let wait = c.advance_reconnect_period();
+        let expected = std::cmp::min(base * 2u32.pow(k), max);
+        if wait != expected { return Err(format!("after outcome #{} of {:?}: wait {:?}, expected min(base*2^{}, max) = {:?}", i, outcomes, wait, k, expected)); }
+        k += 1;
+        c.transition_to_state(ClientImplState::Connecting).map_err(|_| "transition failed".to_string())?;
+    }
+    Ok(())
+}
+
+#[test]
+fn client_backoff_resets_only_after_stable_connection() {
+    let depth = if super::tier_thorough() { 4 } else { 3 };
+    let alphabet = [Outcome::TransportFails, Outcome::HandshakeRejectedLate, Outcome::UpShort, Outcome::UpLong];
+    let mut seqs: Vec<Vec<Outcome>> = vec![vec![]];
+    let mut all: Vec<Vec<Outcome>> = Vec::new();
+    for _ in 0..depth { let mut next = Vec::new(); for s in &seqs { for a in alphabet { let mut t = s.clone(); t.push(a); next.push(t); } } all.extend(next.iter().cloned()); seqs = next; }
+    let cases = all.len();
+    let work = Arc::new(Mutex::new(all));
+    let fails: Arc<Mutex<Vec<String>>> = Arc::new(Mutex::new(Vec::new()));
+    let mut handles = Vec::new();
+    for _ in 0..16 {
+        let work = work.clone(); let fails = fails.clone();
+        handles.push(std::thread::spawn(move || loop {
+            let item = work.lock().unwrap().pop();
+            match item { Some(seq) => { if let Err(e) = backoff_history(&seq) { fails.lock().unwrap().push(e); } } None => break }
+        }));
+    }
+    for h in handles { h.join().unwrap(); }
+    let fails = fails.lock().unwrap().clone();
+    println!("BOUNDED client_backoff_resets_only_after_stable_connection cases={} bound=all histories of <={} attempt outcomes over {{transport fails, handshake refused after > stability period, connection lost early, connection lost after > stability period}}; base 100 ms, stability 500 ms, no jitter", cases, depth);
+    for f in fails.iter().take(20) { println!("BOUNDED-FAIL client_backoff_resets_only_after_stable_connection {}", f); }
+    assert!(fails.is_empty());
 }
